@@ -53,12 +53,14 @@ pub struct DumpSpec {
     pub proc_limits: Option<String>,
     pub lsb: Option<String>,
     pub extra_memory: Vec<(u64, Vec<u8>)>,
+    /// modules named plugin*.dll share one PDB70 CodeView record with this pdb name
+    pub twin_pdb: Option<String>,
 }
 impl Default for DumpSpec {
     fn default() -> Self {
         DumpSpec { big_endian: false, os: "windows".into(), cpu: "x86".into(), threads: vec![], has_thread_list: true, exception: None, breakpad: None,
                    misc_pid: None, modules: vec![], unloaded: vec![], memory_info: vec![], linux_maps: None, proc_status: None, proc_limits: None, lsb: None,
-                   extra_memory: vec![] }
+                   extra_memory: vec![], twin_pdb: None }
     }
 }
 
@@ -165,7 +167,15 @@ fn build_pass(spec: &DumpSpec, exc_ctx: (u32, u32)) -> Vec<u8> {
     }
     for m in &spec.modules {
         let name = synth::DumpString::new(&m.name, endian);
-        d = d.add_module(synth::Module::new(endian, m.base, m.size, &name, 0x5a5a_5a5a, 0, None)).add(name);
+        let mut module = synth::Module::new(endian, m.base, m.size, &name, 0x5a5a_5a5a, 0, None);
+        if let (Some(pdb), true) = (&spec.twin_pdb, m.name.starts_with("plugin")) {
+            // CV_INFO_PDB70: "RSDS", GUID, age, NUL-terminated pdb file name
+            let cv = Section::with_endian(endian).D32(0x5344_5352).D32(0x0a0b_0c0d).D16(0x0102).D16(0x0304).append_bytes(&[1, 2, 3, 4, 5, 6, 7, 8]).D32(1)
+                .append_bytes(pdb.as_bytes()).D8(0);
+            module = module.cv_record(&cv);
+            d = d.add(cv);
+        }
+        d = d.add_module(module).add(name);
     }
     for m in &spec.unloaded {
         let name = synth::DumpString::new(&m.name, endian);
@@ -182,4 +192,42 @@ fn build_pass(spec: &DumpSpec, exc_ctx: (u32, u32)) -> Vec<u8> {
     if let Some(t) = &spec.proc_limits { d = d.set_linux_proc_limits(t.as_bytes()); }
     if let Some(t) = &spec.lsb { d = d.set_linux_lsb_release(t.as_bytes()); }
     d.finish().expect("synth dump")
+}
+
+// ---- dump descriptions of spec/Processor.tla cases (shared by the C14 replay and the report / determinism recorders) ----
+pub const EXC_IP: u64 = 0x400900;
+pub fn thread_ip(spot: &str, k: usize) -> u64 {
+    match spot { "mod" => 0x400100 + k as u64, "unl" => 0x600100 + k as u64, "unl2" => 0x600900 + k as u64, _ => 0x700000 + k as u64 }
+}
+pub fn addr_val(class: &str, base: u64) -> u64 { if class == "hi" { 0xffff_ffff_8000_0000 | base } else { base } }
+pub fn from_processor_case(c: &serde_json::Value) -> DumpSpec {
+    let os = c["plat"][0].as_str().unwrap();
+        let cpu = c["plat"][1].as_str().unwrap();
+        let mut spec = DumpSpec { os: os.into(), cpu: cpu.into(), ..DumpSpec::default() };
+        for (k, t) in c["threads"].as_array().unwrap().iter().enumerate() {
+            let id = t["id"].as_u64().unwrap() as u32;
+            spec.threads.push(ThreadSpec { id, ctx_ok: t["ctxOk"].as_bool().unwrap(), name: if t["named"].as_bool().unwrap() { Some(format!("T{}", id)) } else { None },
+                                           ip: thread_ip(t["spot"].as_str().unwrap(), k), sp: 0x10000 + 0x100 * k as u64, stack_base: 0x10000 + 0x100 * k as u64, stack: vec![0u8; 16] });
+        }
+        let e = &c["exc"];
+        if e["k"] == "some" {
+            let code = match e["code"].as_str().unwrap() { "av" => 0xC000_0005u32, "inpage" => 0xC000_0006, _ => 0xC000_001D };
+            let mut info = [0u64; 15];
+            info[0] = e["kind"].as_u64().unwrap();
+            info[1] = addr_val(e["info1"].as_str().unwrap(), 0x1000);
+            info[2] = 0xC000_009A;
+            spec.exception = Some(ExcSpec { tid: e["tid"].as_u64().unwrap() as u32, has_ctx: e["hasCtx"].as_bool().unwrap(), ctx_ok: e["ctxOk"].as_bool().unwrap(), ctx_ip: EXC_IP, ctx_sp: 0x10000,
+                                            code, flags: 0, address: addr_val(e["addr"].as_str().unwrap(), EXC_IP), nparams: e["np"].as_u64().unwrap() as u32, info, ctx_patch: vec![] });
+        }
+        if c["bp"]["k"] == "some" {
+            let f = |v: u64| if v == 0 { None } else { Some(v as u32) };
+            spec.breakpad = Some((f(c["bp"]["dump"].as_u64().unwrap()), f(c["bp"]["req"].as_u64().unwrap())));
+        }
+        spec.misc_pid = match c["misc"].as_str().unwrap() { "pid" => Some(Some(4242)), "nopid" => Some(None), _ => None };
+        if c["status"] == "pid" { spec.proc_status = Some("Name:\tx\nPid:\t777\n".into()); }
+        spec.modules = vec![ModuleSpec { base: 0x400000, size: 0x1000, name: "m1".into() }];
+        // u3 covers none of the probed addresses but sorts between u1 and u2
+        spec.unloaded = vec![ModuleSpec { base: 0x600000, size: 0x1000, name: "u1".into() }, ModuleSpec { base: 0x600800, size: 0x1000, name: "u2".into() },
+                             ModuleSpec { base: 0x600400, size: 0x100, name: "u3".into() }];
+        spec
 }
